@@ -59,18 +59,19 @@ template<class T> struct verif_cap { static constexpr size_t value = VERIF_VEC_C
 
 template<class T, class A = allocator<T>>
 class verif_vector {
-    T *b_ = nullptr;
-    T *e_ = nullptr;
+    // Invariant: b_ always points to the vector's own CAP-element array (allocated eagerly by every constructor, so that
+    // each vector object has exactly one possible backing object -- this keeps the pointer analysis of the model checker
+    // precise); a moved-from vector gets a fresh array.
+    T *b_;
+    T *e_;
 
     static constexpr size_t CAP = verif_cap<verif_vector>::value;
+
+    void alloc() { b_ = verif_new_array<T>(CAP); e_ = b_; }
 
     void ensure(size_t n) {
         if (n > CAP)
             verif_cap_exceeded();
-        if (!b_) {
-            b_ = verif_new_array<T>(CAP);
-            e_ = b_;
-        }
     }
 
     void destroy_range(T *f, T *l) {
@@ -91,64 +92,56 @@ public:
     using iterator = __gnu_cxx::__normal_iterator<T *, verif_vector>;
     using const_iterator = __gnu_cxx::__normal_iterator<const T *, verif_vector>;
 
-    verif_vector() = default;
+    verif_vector() { alloc(); }
 
     explicit verif_vector(size_t n) {
-        if (n) {
-            ensure(n);
-            for (size_t i = 0; i < n; ++i)
-                ::new((void *) (b_ + i)) T();
-            e_ = b_ + n;
-        }
+        alloc();
+        ensure(n);
+        for (size_t i = 0; i < n; ++i)
+            ::new((void *) (b_ + i)) T();
+        e_ = b_ + n;
     }
 
     verif_vector(size_t n, const T &v) {
-        if (n) {
-            ensure(n);
-            for (size_t i = 0; i < n; ++i)
-                ::new((void *) (b_ + i)) T(v);
-            e_ = b_ + n;
-        }
+        alloc();
+        ensure(n);
+        for (size_t i = 0; i < n; ++i)
+            ::new((void *) (b_ + i)) T(v);
+        e_ = b_ + n;
     }
 
     verif_vector(initializer_list<T> il) {
-        if (il.size()) {
-            ensure(il.size());
-            for (auto &x: il)
-                ::new((void *) (e_++)) T(x);
-        }
+        alloc();
+        ensure(il.size());
+        for (auto &x: il)
+            ::new((void *) (e_++)) T(x);
     }
 
     template<class It, class = typename iterator_traits<It>::iterator_category>
     verif_vector(It f, It l) {
+        alloc();
         for (; f != l; ++f)
             emplace_back(*f);
     }
 
     verif_vector(const verif_vector &o) {
-        if (o.size()) {
-            ensure(o.size());
-            for (const T *p = o.b_; p != o.e_; ++p)
-                ::new((void *) (e_++)) T(*p);
-        }
+        alloc();
+        for (const T *p = o.b_; p != o.e_; ++p)
+            ::new((void *) (e_++)) T(*p);
     }
 
-    verif_vector(verif_vector &&o) noexcept: b_(o.b_), e_(o.e_) { o.b_ = o.e_ = nullptr; }
+    verif_vector(verif_vector &&o) noexcept: b_(o.b_), e_(o.e_) { o.alloc(); }
 
     ~verif_vector() {
         destroy_range(b_, e_);
-        if (b_)
-            ::operator delete(b_);
+        ::operator delete(b_);
     }
 
     verif_vector &operator=(const verif_vector &o) {
         if (this != &o) {
             clear();
-            if (o.size()) {
-                ensure(o.size());
-                for (const T *p = o.b_; p != o.e_; ++p)
-                    ::new((void *) (e_++)) T(*p);
-            }
+            for (const T *p = o.b_; p != o.e_; ++p)
+                ::new((void *) (e_++)) T(*p);
         }
         return *this;
     }
@@ -156,11 +149,10 @@ public:
     verif_vector &operator=(verif_vector &&o) noexcept {
         if (this != &o) {
             destroy_range(b_, e_);
-            if (b_)
-                ::operator delete(b_);
+            ::operator delete(b_);
             b_ = o.b_;
             e_ = o.e_;
-            o.b_ = o.e_ = nullptr;
+            o.alloc();
         }
         return *this;
     }
@@ -173,7 +165,7 @@ public:
     const_iterator cend() const noexcept { return const_iterator(e_); }
 
     size_t size() const noexcept { return size_t(e_ - b_); }
-    size_t capacity() const noexcept { return b_ ? CAP : 0; }
+    size_t capacity() const noexcept { return CAP; }
     bool empty() const noexcept { return b_ == e_; }
     T *data() noexcept { return b_; }
     const T *data() const noexcept { return b_; }
@@ -185,17 +177,8 @@ public:
     T &back() noexcept { return *(e_ - 1); }
     const T &back() const noexcept { return *(e_ - 1); }
 
-    void reserve(size_t n) {
-        if (n && !b_)
-            ensure(0);
-    }
-
-    void shrink_to_fit() {
-        if (b_ && b_ == e_) {
-            ::operator delete(b_);
-            b_ = e_ = nullptr;
-        }
-    }
+    void reserve(size_t) {}
+    void shrink_to_fit() {}
 
     void clear() noexcept {
         destroy_range(b_, e_);
